@@ -97,6 +97,22 @@ def Engine.wfClauses (e : Engine) : List (String × Bool) :=
         (match e.current with
          | some id => (match e.ops.lookup id with | some o => !needsPacketId o.packet || o.packetId.isSome | none => true)
          | none => true)),
+    -- exclusivity of locations (checked on every explored state; not yet part of the proved invariant)
+    ("X1.current-not-filed", match e.current with
+        | some id => !e.pendingWC.contains id && !(e.pendingNonPub.map (·.2)).contains id &&
+            (!(e.pendingPub.map (·.2)).contains id || (match e.ops.lookup id with | some o => o.pubrel.isSome | none => true))
+        | none => true),
+    ("X2.queued-not-filed", (e.userQ ++ e.resubQ).all (fun id => !e.pendingWC.contains id && !(e.pendingPub.map (·.2)).contains id &&
+        !(e.pendingNonPub.map (·.2)).contains id)),
+    ("X3.high-not-filed", e.highQ.all (fun id => !e.pendingWC.contains id && !(e.pendingNonPub.map (·.2)).contains id)),
+    ("X4.current-not-queued", match e.current with
+        | some id => !e.userQ.contains id && !e.resubQ.contains id
+        | none => true),
+    ("X5.queues-disjoint", e.userQ.all (fun id => !e.resubQ.contains id && !e.highQ.contains id) && e.resubQ.all (fun id => !e.highQ.contains id) &&
+        e.userQ.eraseDups.length == e.userQ.length && e.resubQ.eraseDups.length == e.resubQ.length),
+    ("X7.high-once", e.highQ.all (fun id => e.highQ.count id == 1 || (match e.ops.lookup id with | some o => o.pubrel.isSome | none => true))),
+    ("OP.offline-queue-passes-policy", !e.offlineState ||
+        e.userQ.all (fun id => match e.ops.lookup id with | some o => passesPolicy o.packet e.cfg.policy | none => true)),
     -- queue order
     ("QB.queued-exists-before", (e.userQ ++ e.resubQ ++ e.highQ ++ e.pendingWC).all (· < e.nextOpId) &&
         (match e.current with | some id => id < e.nextOpId | none => true)),
